@@ -128,25 +128,44 @@ def rule_d(ctx):
         m = ctx.repo.module('rsocket.%s.from_rsocket_publisher' % pkg)
         frp = m.functions['from_rsocket_publisher'][-1]
         onsub = frp.children.get('on_subscribe')
-        if onsub is None or 'dispose' not in onsub.children:
-            raise AnalysisError('C20.d: %s from_rsocket_publisher.on_subscribe.dispose vanished' % pkg)
-        disp = onsub.children['dispose']
+        if onsub is None:
+            raise AnalysisError('C20.d: %s from_rsocket_publisher.on_subscribe vanished' % pkg)
         tasks = [n.targets[0].id for n in walk_local(onsub.node) if isinstance(n, ast.Assign) and
                  isinstance(n.value, ast.Call) and 'create_task' in ast.unparse(n.value.func) and
                  isinstance(n.targets[0], ast.Name)]
-        cancelled = [n.func.value.id for n in walk_local(disp.node) if isinstance(n, ast.Call) and
-                     isinstance(n.func, ast.Attribute) and n.func.attr == 'cancel' and
-                     isinstance(n.func.value, ast.Name)]
-        ok = len(tasks) >= 2 and set(tasks) <= set(cancelled)
-        rep.add('C20.d', '%s from_rsocket_publisher / dispose cancels both helper tasks' % pkg, disp, ok,
-                'tasks %s are cancelled by dispose()' % sorted(tasks) if ok else
-                'dispose() does not cancel %s' % sorted(set(tasks) - set(cancelled)))
+        # what the returned disposable does when it is disposed: Disposable(<action>) with the action a nested
+        # function, a lambda or a bound method such as task.cancel
         from ..astutil import returned_exprs
-        rets = [v for v in returned_exprs(onsub.node) if 'Disposable' in ast.unparse(v) and
-                'dispose' in ast.unparse(v)]
-        rep.add('C20.d', '%s from_rsocket_publisher / the disposable returned runs dispose', onsub, bool(rets),
-                'on_subscribe returns Disposable(dispose)' if rets else
-                'the subscription function does not return a disposable bound to dispose()')
+        actions = []
+        for v in returned_exprs(onsub.node):
+            if isinstance(v, ast.Call) and 'Disposable' in ast.unparse(v.func) and v.args:
+                actions.append(v.args[0])
+        cancelled = set()
+        where = onsub
+        for a in actions:
+            if isinstance(a, ast.Name) and a.id in onsub.children:
+                where = onsub.children[a.id]
+                body = where.node
+            elif isinstance(a, ast.Lambda):
+                body = a.body
+            elif isinstance(a, ast.Attribute) and a.attr == 'cancel' and isinstance(a.value, ast.Name):
+                cancelled.add(a.value.id)
+                continue
+            else:
+                continue
+            for n in ast.walk(body):
+                if isinstance(n, ast.Call) and isinstance(n.func, ast.Attribute) and n.func.attr == 'cancel' and \
+                        isinstance(n.func.value, ast.Name):
+                    cancelled.add(n.func.value.id)
+        rep.add('C20.d', '%s from_rsocket_publisher / the disposable returned runs dispose' % pkg, onsub,
+                len(actions) == 1,
+                'on_subscribe returns Disposable(<action>)' if len(actions) == 1 else
+                'the subscription function does not return one disposable bound to an action')
+        ok = len(tasks) >= 2 and set(tasks) <= cancelled
+        rep.add('C20.d', '%s from_rsocket_publisher / dispose cancels both helper tasks' % pkg, where, ok,
+                'tasks %s are cancelled by dispose()' % sorted(tasks) if ok else
+                'disposing does not itself cancel %s: a task left running until a later call-back can still send '
+                'REQUEST_N after the CANCEL' % sorted(set(tasks) - cancelled))
         # the subscription task: on cancellation, cancel the RSocket subscription unless the stream is done
         aio = m.functions['_aio_sub'][-1]
         paths = ctx.paths(aio, None, exc=('cancel',), inline_depth=1)
